@@ -64,6 +64,11 @@ add("C12", EX,
     "Trusted: refimpl::fields (the property's list, three-valued), refimpl::qpack literal encoder/decoder. Not demanded: acceptance of every well-formed section.",
     "exhaustive enumeration of a bounded input grid on the implementation over a deterministic in-memory transport, reference-predicate oracle", "enumeration", "DESIGN.md 5/C12")
 
+add("C01", MC,
+    "Real h3 client <-> simnet <-> real h3 server. For each message shape of a product alphabet (methods, targets, header multisets incl. duplicates, body piece lists 0..64 KiB, trailers; both directions; request stream whole or split into halves on separate tasks) EVERY execution with at most k deviations is run, where chunk cuts and delayed delivery on the request stream, partial/pending write acceptance and every scheduling choice among client task, drivers, server task, handlers and halves share one deviation budget; plus uniform one-byte-per-read and one-byte-per-write runs. Oracle: message in = message out, exactly one end-of-body, no connection error, every task completes.",
+    "Trusted: simnet (stream semantics, FIFO default schedule), position-coded payloads + data independence of h3 for payload bytes. Bound: k=2 deviations per execution; shapes are a covering subset in quick, the full product in thorough.",
+    "stateless DFS with iterative deviation bounding over schedule x chunking x back-pressure choices of the running implementation", "dfs", "DESIGN.md 5/C01")
+
 ALL = [f"C{i:02d}" for i in range(1, 21)]
 pending_reason = "check not built yet in this revision of /verif (planned, see DESIGN.md section 5)"
 manifest = dict(
